@@ -253,7 +253,10 @@ impl Model {
                 self.files.push(MFile { name: n, data: content::fill(idx, 0, 3, Entropy::Pattern), open: false, idx });
                 Expect::Accept
             }
-            Call::Flush => Expect::Accept,
+            // "anything after finalization" is refused: flush too
+            Call::Flush => {
+                if self.finalized { Expect::Refuse } else { Expect::Accept }
+            }
             Call::Finalize => {
                 if self.finalized || self.files.iter().any(|f| f.open) {
                     return Expect::Refuse;
